@@ -871,6 +871,10 @@ def _make_exprlike_fst(  # TODO: this needs a refactor, cleanup and simplificati
 
     _validate_put_ast(self, put_ast, idx, field, static)
 
+    if ctx_cls is not Load and not (is_valid_del_target if ctx_cls is Del else is_valid_target)(put_ast):
+        raise NodeError(f'invalid {ctx_cls.__name__} target for {self.a.__class__.__name__}.{field}'
+                        f', got {put_ast.__class__.__name__}')
+
     # figure out parentheses
 
     pars = fst.FST.get_option('pars', options)
